@@ -134,6 +134,34 @@ def run(ctx):
                                 if c != a:
                                     ctx.violation("differs-from-standalone-rater",
                                                   f"rate_quality gives {a}, the standalone rater {c}", {"input": meta})
+        # the order in which feature names are listed is immaterial (training columns and the curve's sample
+        # must be paired by name), for training sets read from disk
+        allc = IndentationRater.get_feature_names(which_type=["continuous"])
+        for tlabel, ts in tsets[:2]:
+            for reg in ("Extra Trees", "Decision Tree"):
+                for k in range(3 if ctx.tier == "quick" else 12):
+                    sel = ctx.rng.sample(allc, ctx.rng.randint(2, 5)) + (["feat_bin_size"] if k % 2 else [])
+                    perm = list(sel)
+                    ctx.rng.shuffle(perm)
+                    if perm == sorted(perm):
+                        perm = perm[::-1]
+                    meta = {"oracle": "names-order", "regressor": reg, "training_set": tlabel, "names": perm}
+                    ctx.case(meta, nontrivial=json.dumps(meta), bucket="stream=names-order")
+                    with warnings.catch_warnings():
+                        warnings.simplefilter("ignore")
+                        try:
+                            a = dict(state_classes(2))["fitted"].rate_quality(regressor=reg, training_set=ts,
+                                                                             names=list(perm))
+                            b_ = dict(state_classes(2))["fitted"].rate_quality(regressor=reg, training_set=ts,
+                                                                              names=sorted(perm))
+                        except BaseException as e:  # noqa
+                            ctx.violation(f"rate-quality-raises:names:{type(e).__name__}",
+                                          f"rate_quality(names={perm}) raised {e!r}", {"input": meta})
+                            continue
+                    if a != b_:
+                        ctx.violation("rating-depends-on-order-of-names",
+                                      f"rate_quality(names={perm}) = {a!r} but with the same names sorted = {b_!r} "
+                                      f"({reg}, training set {tlabel})", {"input": meta, "observed": a, "expected": b_})
         # using the rater API with own regressor keyword arguments must not change later ratings
         from nanite.rate import regressors as nreg
         snap = copy.deepcopy({k: v[1] for k, v in nreg.reg_dict.items()})
